@@ -318,7 +318,7 @@ func exhaustiveC02(thorough bool, emit func(C02Case) bool) {
 			return
 		}
 	}
-	lens := []int{0, 1, 2, 4094, 4095, 4096, 4097, 65535, 65536, 65537, 70000}
+	lens := []int{0, 1, 2, 4094, 4095, 4096, 4097, 65535, 65536, 65537, 70000, 1<<20 + 1, 2 << 20}
 	if thorough {
 		lens = append(lens, 1<<20, 4<<20)
 	}
